@@ -1914,6 +1914,9 @@ func (p *BinaryProtocol) WriteAnyWithDesc(desc *TypeDescriptor, val interface{},
 			if !ok {
 				return errDismatchPrimitive
 			}
+			if e := p.WriteMapBegin(desc.Key().Type(), desc.Elem().Type(), len(vv)); e != nil {
+				return e
+			}
 			for k, v := range vv {
 				switch kt := k.(type) {
 				case *map[string]interface{}:
